@@ -276,6 +276,179 @@ theorem gStep_obs_ne_foreign (kg : Keying) (perf : Bool) (t : ThreadId) (op : Op
     (gStep kg perf t op g).2 ≠ Obs.foreign := by
   exact coreStep_obs_ne_foreign perf _ g.sh _ op
 
+
+/-! ## records that no shared-by-design object can influence
+
+    `svSaved` (the `_old_value`s of the override contexts a thread is inside of) is the only carrier component that an
+    operation on a shared object writes when the profiler is off or the operation is not a cached call, and no other
+    operation reads or writes it.  So modulo `svSaved` the view of a thread evolves through its private operations
+    alone, whatever the shared objects hold. -/
+
+/-- forget the saved scoped values -/
+def forgetTL (l : TL) : TL := { l with svSaved := [] }
+def forgetL (L : Local) : Local := { L with tl := forgetTL L.tl }
+
+/-- an operation on a shared object - other than a cached call under COLLECT_PERF_STATS - changes nothing of the
+    caller's carriers except `svSaved` -/
+theorem sharedStep_forget (perf : Bool) (sh : Shared) (l : TL) (op : Op) (r : TL × Shared × Obs)
+    (h : sharedStep perf sh l op = some r) (hc : (perf && isLru op) = false) : forgetTL r.1 = forgetTL l := by
+  cases op <;> simp only [sharedStep] at h <;> try (simp at h)
+  case svGet => cases h; rfl
+  case svSet v => cases h; rfl
+  case svEnter v => cases h; rfl
+  case svExit =>
+    cases hs : l.svSaved <;> simp only [hs] at h <;> cases h <;> simp [forgetTL]
+  case lruCall k =>
+    have hp : perf = false := by simpa [isLru] using hc
+    subst hp
+    cases ha : l.amode <;> simp [ha] at h
+    · split at h <;> cases h <;> rfl
+    · cases h; rfl
+
+/-- a private operation neither reads nor writes `svSaved` -/
+theorem privStep_forget (perf : Bool) (look : Nat × Nat → Option Nat) (l : TL) (op : Op) (h : op.isShared = false) :
+    (privStep perf look (forgetTL l) op).2 = (privStep perf look l op).2 ∧
+    forgetTL (privStep perf look (forgetTL l) op).1 = forgetTL (privStep perf look l op).1 := by
+  cases op <;> simp [Op.isShared] at h
+  case schedFlush n => cases hd : alookup n l.dbg <;> cases perf <;> simp [privStep, forgetTL, flushName, hd]
+  case directFlush n => cases hd : alookup n l.dbg <;> simp [privStep, forgetTL, flushName, hd]
+  case schedBatch n =>
+    cases hd : alookup n l.dbg <;> simp [privStep, forgetTL, hd]
+    split <;> simp
+  case taskStop => cases hd : l.sched.saved <;> simp [privStep, forgetTL, hd]
+  case amExit => cases hd : l.amodeSaved <;> simp [privStep, forgetTL, hd]
+  case taskDone t => cases perf <;> simp [privStep, forgetTL]
+  case newTask => cases ha : l.amode <;> cases perf <;> simp [privStep, forgetTL, freshTask, perfId, ha]
+  case mkItem a b => cases perf <;> simp [privStep, forgetTL, perfId]
+  case dedupCall f k =>
+    cases ha : l.amode <;> cases hl : look (f, k) <;> cases perf <;>
+      simp [privStep, forgetTL, freshTask, perfId, ha, hl, TL.running]
+    all_goals (split <;> simp [ha])
+  all_goals simp [privStep, forgetTL]
+
+theorem localStep_forget (perf : Bool) (L : Local) (op : Op) (h : op.isShared = false) :
+    (localStep perf (forgetL L) op).2 = (localStep perf L op).2 ∧
+    forgetL (localStep perf (forgetL L) op).1 = forgetL (localStep perf L op).1 := by
+  have a := privStep_forget perf (fun fk => alookup fk L.dedup) L.tl op h
+  simp only [localStep, coreStep_priv _ _ _ _ _ h, forgetL]
+  refine ⟨congrArg Prod.snd a.1, ?_⟩
+  rw [a.2, congrArg Prod.fst a.1]
+
+/-- the view of the calling thread, modulo `svSaved`, survives its operations on shared objects -/
+theorem gStep_shared_forget (kg : Keying) (perf : Bool) (t : ThreadId) (op : Op) (g : GState)
+    (h : op.isShared = true) (hc : (perf && isLru op) = false) :
+    forgetL (abs kg t (gStep kg perf t op g).1) = forgetL (abs kg t g) := by
+  cases hs : sharedStep perf g.sh (getL g (kg.slot t)) op with
+  | none => cases op <;> simp [Op.isShared] at h <;> simp [sharedStep] at hs <;> (repeat' split at hs) <;> simp at hs
+  | some r =>
+    have := sharedStep_forget perf g.sh _ op r hs hc
+    simp only [gStep, coreStep, hs, abs, forgetL, getL_set_same, applyG, this]
+
+/-- the reference for the records of a thread that no shared object can influence: its private operations executed by
+    `localStep` on its own view modulo `svSaved`; operations on shared objects are skipped; under COLLECT_PERF_STATS
+    the list ends at the first cached call -/
+def strictRef (perf : Bool) : Local → List Op → List Rec
+  | _, [] => []
+  | L, op :: ops =>
+    if op.isShared then
+      if perf && isLru op then [] else strictRef perf L ops
+    else
+      (op, (localStep perf L op).2) :: strictRef perf (forgetL (localStep perf L op).1) ops
+
+theorem strictPart_cons_priv (perf : Bool) (r : Rec) (l : List Rec) (h : r.1.isShared = false) :
+    strictPart perf (r :: l) = r :: strictPart perf l := by
+  have hl : isLru r.1 = false := by
+    cases hr : r.1 <;> simp [hr, Op.isShared] at h <;> rfl
+  cases perf <;> simp [strictPart, cut, priv, h, hl]
+
+theorem strictPart_cons_shared (perf : Bool) (r : Rec) (l : List Rec) (h : r.1.isShared = true)
+    (hc : (perf && isLru r.1) = false) : strictPart perf (r :: l) = strictPart perf l := by
+  cases perf
+  · simp [strictPart, cut, priv, h]
+  · have hl : isLru r.1 = false := by simpa using hc
+    simp [strictPart, cut, priv, h, hl]
+
+theorem strictPart_cons_cut (r : Rec) (l : List Rec) (hl : isLru r.1 = true) : strictPart true (r :: l) = [] := by
+  simp [strictPart, cut, priv, hl]
+
+/-- **every schedule, every thread, no hypothesis on its operations**: the records of thread `t` that no shared object
+    can influence are those of `strictRef` on `t`'s initial view - whatever the other threads do and whatever the
+    shared objects hold -/
+theorem sim_strict (kg : Keying) (hs : kg.Separates) (perf : Bool) (sch : List (ThreadId × Op)) (g : GState)
+    (t : ThreadId) :
+    strictPart perf (proj t (runGlobal (gStep kg perf) g sch).2) = strictRef perf (forgetL (abs kg t g)) (opsOf t sch) := by
+  induction sch generalizing g with
+  | nil => simp [runGlobal, opsOf, proj, strictRef, strictPart, cut, priv]
+  | cons p sch ih =>
+    obtain ⟨u, op⟩ := p
+    by_cases h : u = t
+    · subst h
+      simp only [runGlobal, opsOf_cons_same, proj_cons_same]
+      cases hsh : op.isShared with
+      | false =>
+        have hc := gStep_commutes kg perf u op g hsh
+        have hf := localStep_forget perf (abs kg u g) op hsh
+        rw [strictPart_cons_priv perf _ _ hsh, ih (gStep kg perf u op g).1]
+        simp only [strictRef, hsh, Bool.false_eq_true, if_false]
+        rw [hf.1, hf.2, hc]
+      | true =>
+        cases hcut : (perf && isLru op) with
+        | false =>
+          rw [strictPart_cons_shared perf _ _ hsh hcut, ih (gStep kg perf u op g).1,
+            gStep_shared_forget kg perf u op g hsh hcut]
+          simp [strictRef, hsh, hcut]
+        | true =>
+          have hp : perf = true := by cases perf <;> simp_all
+          have hl : isLru op = true := by cases perf <;> simp_all
+          subst hp
+          rw [strictPart_cons_cut _ _ hl]
+          simp [strictRef, hsh, hl]
+    · simp only [runGlobal, opsOf_cons_other _ _ _ _ h, proj_cons_other _ _ _ _ h]
+      rw [ih (gStep kg perf u op g).1, gStep_frame kg hs perf u t op g (Ne.symm h)]
+
+/-! ## the thread component of the deduplicate key under CPython's `current_thread()` -/
+
+theorem alookup_mem {α β : Type} [DecidableEq α] (k : α) (v : β) (l : List (α × β)) (h : alookup k l = some v) :
+    (k, v) ∈ l := by
+  induction l with
+  | nil => simp [alookup] at h
+  | cons e r ih =>
+    obtain ⟨k', v'⟩ := e
+    by_cases hk : k' = k
+    · simp [alookup, hk] at h; subst hk; subst h; exact List.mem_cons_self ..
+    · simp [alookup, hk] at h; exact List.mem_cons_of_mem _ (ih h)
+
+/-- if no two threads that were not created through `threading.Thread` had the same OS thread ident, CPython's
+    `current_thread()` objects keep all threads apart -/
+theorem cpython_separates (aliens : List (ThreadId × Nat)) (h : identsDistinct aliens = true) :
+    (Keying.cpython aliens).Separates := by
+  refine ⟨fun _ _ e => e, ?_⟩
+  intro t u e
+  have e' : (match alookup t aliens with | some i => 2 * i + 1 | none => 2 * t) =
+      (match alookup u aliens with | some i => 2 * i + 1 | none => 2 * u) := e
+  clear e
+  have m1 := fun i => alookup_mem t i aliens
+  have m2 := fun i => alookup_mem u i aliens
+  revert e' m1 m2
+  generalize alookup t aliens = a
+  generalize alookup u aliens = b
+  intro e' m1 m2
+  cases a with
+  | none =>
+    cases b with
+    | none => exact Nat.eq_of_mul_eq_mul_left (by decide : 0 < 2) e'
+    | some j => simp only at e'; omega
+  | some i =>
+    cases b with
+    | none => simp only at e'; omega
+    | some j =>
+      simp only at e'
+      have hij : i = j := by omega
+      subst hij
+      simp only [identsDistinct, List.all_eq_true] at h
+      have := h (t, i) (m1 i rfl) (u, i) (m2 i rfl)
+      simpa using this
+
 section runs
 variable {Γ ω ο : Type} (gstep : ThreadId → ω → Γ → Γ × ο)
 
@@ -285,6 +458,17 @@ theorem runGlobal_threads (g : Γ) (sch : List (ThreadId × ω)) :
   induction sch generalizing g with
   | nil => rfl
   | cons p sch ih => obtain ⟨u, op⟩ := p; simp [runGlobal, ih]
+
+/-- the operations a thread is recorded with are its operations in the schedule -/
+theorem runGlobal_ops (g : Γ) (sch : List (ThreadId × ω)) (t : ThreadId) :
+    (proj t (runGlobal gstep g sch).2).map (·.1) = opsOf t sch := by
+  induction sch generalizing g with
+  | nil => rfl
+  | cons p sch ih =>
+    obtain ⟨u, op⟩ := p
+    by_cases h : u = t
+    · subst h; simp only [runGlobal, proj_cons_same, opsOf_cons_same, List.map_cons, ih]
+    · simp only [runGlobal, proj_cons_other _ _ _ _ h, opsOf_cons_other _ _ _ _ h, ih]
 
 /-- every observation of a run satisfies what every single step's observation satisfies -/
 theorem runGlobal_obs (P : ο → Prop) (hP : ∀ t op g, P (gstep t op g).2) (g : Γ) (sch : List (ThreadId × ω)) :
